@@ -1,5 +1,5 @@
-PROP = {'modules': ['Discv5Model.Props.C10', 'Discv5Model.Props.C09Service', 'Discv5Model.Props.C10Service'],
- 'lemma_modules': ['Discv5Model.Proofs.QueryLemmas', 'Discv5Model.Proofs.LookupLemmas', 'Discv5Model.Proofs.LookupLedger', 'Discv5Model.Proofs.LookupResult'],
+PROP = {'modules': ['Discv5Model.Props.C10', 'Discv5Model.Props.C09Service', 'Discv5Model.Props.C10Service', 'Discv5Model.Props.C10Candidates'],
+ 'lemma_modules': ['Discv5Model.Proofs.QueryLemmas', 'Discv5Model.Proofs.LookupLemmas', 'Discv5Model.Proofs.LookupLedger', 'Discv5Model.Proofs.LookupResult', 'Discv5Model.Proofs.ServiceDiscovered'],
  'engines': [{'name': 'query', 'quick': 1000, 'thorough': 50000}, {'name': 'service', 'quick': 80, 'thorough': 4000}],
  'rule': 'query engine (cases shared with C09, see there): FindNodeQuery / PredicateQuery driven directly with explicit time in a contract and an adversarial '
          'mode, plus QueryPool cases; into_result (and for FindNodeQuery a peek at the result of a clone in mid-run) is compared with the model and checked '
@@ -21,7 +21,7 @@ PROP = {'modules': ['Discv5Model.Props.C10', 'Discv5Model.Props.C09Service', 'Di
                'reported with a matching record, and a finished query with a short result has no NotContacted candidate. The model is tied to /repo by a '
                'differential run on every check. Also (Props/C09Service.lean, Model/Lookup.lean): the lookups the service runs are histories of the query '
                'model (so result soundness / order / completeness hold of them) and hand over at most the number of records asked for; the service driver '
-               'predicts the result of every lookup (which nodes, in which order) and it is compared with the implementation. Props/C10Service.lean: the ids '
+               'predicts the result of every lookup (which nodes, in which order) and it is compared with the implementation. Props/C10Candidates.lean: every record `discovered` hands to a lookup is contactable in the IP mode of the node and passes the table filter, and `send_rpc_query` for a found, contactable candidate emits its request (admission and contact decide alike - no candidate fails without having been asked). Props/C10Service.lean: the ids '
                'of the records a lookup hands over are, in order, ids of into_result() of a state the lookup reached (result_ids), hence the records come in '
                "strictly increasing distance to the lookup's target (result_in_increasing_distance) and every node among them was selected by the lookup and "
                'answered it (result_nodes_answered).',
